@@ -45,6 +45,25 @@ def run(pid, tier, seed, gens=None):
     bonus = 0 if quick else P["bonus"]
     for u in (P.get("quick_universes") if quick and P.get("quick_universes") else P["universes"]):
         pp.exhaustive_part(v, u, P["invs"], gens, P["owned"], lenbonus=bonus, c01=P["c01"], nparts=8 if quick else 48)
+    if pid == "C04":
+        # the truncation relation itself, on the specification: two machines in lockstep on raw and raw[:k]
+        from concurrent.futures import ThreadPoolExecutor
+        from lib.tlcrun import run_tlc
+        for u in (["U_C07_24"] if quick else ["U_C07_24", "U_C12", "U_C06"]):
+            def cfgtext(k, u=u):
+                return ('SPECIFICATION Spec\nCONSTANT UName = "%s"\nCONSTANTS Part = %d NParts = 8\nINVARIANT Inv_C04_Cut\n'
+                        'INVARIANT Inv_C04_CutBeyond\n' % (u, k))
+            with ThreadPoolExecutor(8) as ex:
+                parts = list(ex.map(lambda k: run_tlc("MC_Cut", cfg_text=cfgtext(k), workers=2, heap="3g", timeout=5000), range(8)))
+            res = parts[0]
+            for r in parts[1:]:
+                res.violation = res.violation or r.violation
+                res.generated += r.generated
+                res.distinct += r.distinct
+                res.wall_s = max(res.wall_s, r.wall_s)
+            if res.violation:
+                raise common.MachineryFailure("MC_Cut(%s) violates %s on its own model:\n%s" % (u, res.violation["name"], res.violation["trace_text"][-2000:]))
+            v.add_tlc(res, "MC_Cut U=%s: raw and raw[:k] in lockstep (Inv_C04_Cut, Inv_C04_CutBeyond)" % u)
     if pid == "C12":
         # failures of pack(): out-of-range / wrongly typed values, colliding positions, failing before-pack hooks
         from lib import valuesprofile as vp
